@@ -118,3 +118,13 @@ impl std::fmt::Display for ExpressionTreeHash {
         write!(f, "{}", self.0)
     }
 }
+
+#[cfg(feature = "verif_hooks")]
+pub mod verif_hooks {
+    pub use super::expression_execution::{ExpressionExecutionEngine, EvaluationError, EvaluationResult, unique_values};
+    pub use super::column_providers::{HashMapColumnProvider, HashMapOwnedKeyColumnProvider, SingleColumnProvider};
+    pub use super::select_execution::SelectExecutionEngine;
+    pub use super::aggregate_execution::AggregateExecutionEngine;
+    pub use super::helpers::DistinctValues;
+    pub use super::join::JoinedTableData;
+}
